@@ -681,3 +681,113 @@ func ruleKey4(c *Ctx) {
 			fmt.Sprintf("type tag %q of %s is also the tag of %s: under --strict-equal values of different types with the same text share a bucket", tag, t, dup))
 	}
 }
+
+// R-KEY-5 ---------------------------------------------------------------------
+
+func init() {
+	Register(&Rule{ID: "R-KEY-5", Props: []string{"C04", "C17"}, Floor: 5,
+		Doc:      "consumers use the whole key of one row: every fill of a comparison-key buffer (SerializeComparisonKeys / SortValues.Serialize) starts from an empty buffer — taken from the pool or Reset since the previous fill on every path — and the String() of that buffer is used unmodified as map key / stored key (no substring, no further transformation); the pool's Put resets the buffer",
+		Controls: []string{"CtlKeyBufferNotReset", "CtlKeyTruncated"},
+		Run:      ruleKey5})
+}
+
+func ruleKey5(c *Ctx) {
+	fillers := map[string]int{"lib/query.SerializeComparisonKeys": 0, "lib/query.(SortValues).Serialize": 1}
+	var fns []*ssa.Function
+	fns = append(fns, c.P.FuncsIn(true, "lib/query")...)
+	for _, fn := range fns {
+		name := c.P.Name(fn)
+		if _, isFiller := fillers[name]; isFiller {
+			continue
+		}
+		n := 0
+		for _, call := range core.Calls(fn) {
+			argIdx, ok := fillers[c.P.CalleeName(call)]
+			if !ok {
+				continue
+			}
+			n++
+			c.Touch(fn)
+			buf := call.Common().Args[argIdx]
+			fill := call.(ssa.Instruction)
+			key := c.KeyAt(fn, fmt.Sprintf("key buffer fill #%d", n))
+			// (1) empty buffer: a pool Get / Reset of the same buffer dominates the fill
+			// and lies on every cycle through the fill
+			var cleaners []ssa.Instruction
+			for _, other := range core.Calls(fn) {
+				on := c.P.CalleeName(other)
+				oin := other.(ssa.Instruction)
+				switch on {
+				case "lib/query.GetComparisonKeysBuf":
+					if v, ok := other.(ssa.Value); ok && sameVar(v, buf) {
+						cleaners = append(cleaners, oin)
+					}
+				case "(*bytes.Buffer).Reset":
+					if sameVar(other.Common().Args[0], buf) {
+						cleaners = append(cleaners, oin)
+					}
+				}
+			}
+			// a buffer allocated here (&bytes.Buffer{} / new) is empty too
+			for _, o := range core.Origins(buf, false) {
+				if al, ok := o.(*ssa.Alloc); ok {
+					cleaners = append(cleaners, al)
+				}
+			}
+			clean := false
+			for _, cl := range cleaners {
+				if !core.Dominates(cl, fill) {
+					continue
+				}
+				// no path from the fill back to the fill that avoids the cleaner
+				if !core.Reachable(fill, fill, func(in ssa.Instruction) bool { return in == cl }) {
+					clean = true
+				}
+			}
+			if !clean {
+				c.Bad(key, c.Pos(fill), "the key buffer is not provably empty when it is filled (no pool Get / Reset of it between two fills on every path): the key of a row starts with the leftovers of the previous row, so equal rows get different keys and different rows can collide")
+				continue
+			}
+			// (2) the String() of the buffer is used unmodified
+			bad := ""
+			for _, other := range core.Calls(fn) {
+				if c.P.CalleeName(other) != "(*bytes.Buffer).String" || !sameVar(other.Common().Args[0], buf) {
+					continue
+				}
+				sv, ok := other.(ssa.Value)
+				if !ok || sv.Referrers() == nil {
+					continue
+				}
+				for _, r := range *sv.Referrers() {
+					switch x := r.(type) {
+					case *ssa.Store, *ssa.MapUpdate, *ssa.Lookup, *ssa.Phi, *ssa.DebugRef, *ssa.MakeInterface:
+					case *ssa.BinOp:
+						if x.Op != token.EQL && x.Op != token.NEQ {
+							bad = fmt.Sprintf("the key is transformed (%s) at %s", x.Op, c.Pos(x))
+						}
+					case *ssa.Slice:
+						bad = fmt.Sprintf("only a substring of the key is used at %s", c.Pos(x))
+					case ssa.CallInstruction:
+						bad = fmt.Sprintf("the key is passed to %s at %s before it is used", callDesc(c.P, x), c.Pos(x))
+					default:
+						bad = fmt.Sprintf("unexpected use of the key (%T) at %s", r, c.Pos(r))
+					}
+				}
+			}
+			c.Check(bad == "", key, c.Pos(fill), "filled from empty; the buffer's String() is used unmodified", bad+": two rows whose keys differ elsewhere fall into the same bucket")
+		}
+	}
+	// (3) the pool's Put resets
+	if put := c.Fn("lib/query.PutComparisonkeysBuf"); put != nil {
+		okReset := false
+		for _, r := range c.P.CallsNamed(put, "(*bytes.Buffer).Reset") {
+			for _, p := range c.P.CallsNamed(put, "(*sync.Pool).Put") {
+				if core.Dominates(r.(ssa.Instruction), p.(ssa.Instruction)) {
+					okReset = true
+				}
+			}
+		}
+		c.Check(okReset, "lib/query.PutComparisonkeysBuf: Reset before Put", c.FnPos(put), "the buffer is emptied before it returns to the pool",
+			"PutComparisonkeysBuf no longer resets the buffer before pooling it: the next GetComparisonKeysBuf hands out a buffer that still holds another row's key")
+	}
+}
